@@ -144,6 +144,20 @@ def exNested : Doc :=
 example : docWf Gen.turtle false exNested = true ∧ docNoBoolPfx exNested = true ∧
     (denote idResolve none [] exNested).isSome = true := by decide
 
+/-- … so the theorem applies to them: whatever `exDoc` / `exNested` denote is what the Turtle and the
+    TriG configuration decode from the printed text -/
+example : ∃ qs, denote idResolve none [] exDoc = some qs ∧
+    run (C05.realCfg false idResolve (inRanges Gen.unicodeSpace)) .eof none [] (print Gen.turtle exDoc exChoices) =
+      (qs.map toStmt, .clean) := by
+  obtain ⟨qs, h⟩ := Option.isSome_iff_exists.1 (by decide : (denote idResolve none [] exDoc).isSome = true)
+  exact ⟨qs, h, decode_print_real false idResolve none [] exDoc exChoices qs (by decide) (by decide) (by decide) h⟩
+
+example : ∃ qs, denote idResolve none [] exNested = some qs ∧
+    run (C05.realCfg true idResolve (inRanges Gen.unicodeSpace)) .eof none [] (print Gen.trig exNested []) =
+      (qs.map toStmt, .clean) := by
+  obtain ⟨qs, h⟩ := Option.isSome_iff_exists.1 (by decide : (denote idResolve none [] exNested).isSome = true)
+  exact ⟨qs, h, decode_print_real true idResolve none [] exNested [] qs (by decide) (by decide) (by decide) h⟩
+
 /-! ### Witnesses of the three findings on the model (the Go decoders behave the same), and the
     repaired behaviour at the two defects fixed here (D42, D44) -/
 
